@@ -5,7 +5,7 @@ from .statement.feature.covariate import Ref
 from .statement.feature.symbols import Name, Option, Wildcard
 from .statement.statement import Statement
 
-StringifiableAtom = Union[int, str, Name, Wildcard, Ref]
+StringifiableAtom = Union[int, float, str, Name, Wildcard, Ref]
 Stringifiable = Union[StringifiableAtom, tuple[StringifiableAtom, ...]]
 
 
@@ -52,6 +52,8 @@ def _stringify_attribute(attribute: Stringifiable) -> str:
         return attribute
     elif isinstance(attribute, int):
         return str(attribute)
+    elif isinstance(attribute, float):
+        return str(int(attribute)) if attribute.is_integer() else str(attribute)
     elif isinstance(attribute, tuple):
         if len(attribute) == 1:
             return _stringify_attribute(attribute[0])
